@@ -262,6 +262,15 @@ def one_world(chk, drv, HG, g, stream, corr_fail, n_inst, n_var, only_last=False
     if S_on.gen_error is not None or S_off.gen_error is not None:
         chk.note("hook-generation-failed(C09 matter)")
         return
+    copies = None
+    if g.get("conv") is not None and stream != UNJUDGED:
+        # converter level: the option may also be given to copy(); a copy made with an explicit value is a converter with
+        # that value, whatever the source had
+        try:
+            copies = (S_on.conv.copy(forbid_extra_keys=False), S_off.conv.copy(forbid_extra_keys=True))
+        except Exception as e:  # noqa: BLE001
+            chk.violation("C10 oracle: Converter.copy(forbid_extra_keys=...) failed: " + repr(e)[:200],
+                          {"check": "copy-flag", "stream": stream, "gworld": g})
     for ci, c in enumerate(g["classes"]):
         if only_last and ci != len(g["classes"]) - 1:
             continue
@@ -318,6 +327,18 @@ def one_world(chk, drv, HG, g, stream, corr_fail, n_inst, n_var, only_last=False
                                     % ("detailed" if g["detailed"] else "fast",
                                        repr(on_res[1])[:120] if on_res[0] == "err" else "ok", repr(tw_res[1])[:120] if tw_res[0] == "err" else "ok"),
                                     {"check": "modes"}))
+                if copies is not None:
+                    chk.note("copy-with-explicit-flag-compared")
+                    for cp, ref, flag in ((copies[0], off_res, False), (copies[1], on_res, True))[: 2 if g["conv"]["forbid"] else 1]:
+                        try:
+                            rv = ("ok", cp.structure(S_on.R.val(p_ext), S_on.R.ty(ty)))
+                        except Exception as e:  # noqa: BLE001
+                            rv = ("err", e)
+                        if (rv[0] == "err") != (ref[0] == "err") or (rv[0] == "ok" and ref[0] == "ok" and not (rv[1] == ref[2])):
+                            bad.append(("copy(forbid_extra_keys=%s) of a converter with the opposite setting does not behave like a "
+                                        "converter constructed with forbid_extra_keys=%s: copy %s, constructed %s"
+                                        % (flag, flag, repr(rv[1])[:120] if rv[0] == "err" else "ok",
+                                           repr(ref[1])[:120] if ref[0] == "err" else "ok"), {"check": "copy-flag"}))
                 for what, extra in bad:
                     chk.violation("C10 oracle: " + what + f" [{stream} {c['kind']} {terms.canon_sx(p_ext)[:300]}]",
                                   dict(case, **extra))
@@ -375,15 +396,21 @@ def tag_corr(chk, drv, S, g, U, tu_sx, payload, corr_fail, case, variant):
         corr_fail.append((dict(case, stream="tagged-union:" + variant, payload_ext=p_abs, forbid_world="tag"), a, b))
 
 
+MEMBER_KINDS = [("attrs", "dc"), ("attrs", "dc"), ("attrs", "dc", "td", "nt"), ("td", "nt"), ("td",), ("nt",), ("attrs", "td"), ("dc", "nt")]
+
+
 def tagged_unions(chk, HG, n, drv, corr_fail):
     """the tag key of a tagged union is not an extra: oracle on the implementation + correspondence with the
-    composed model"""
+    composed model.  Members of every kind whose hook checks for unknown keys: attrs classes, dataclasses, TypedDicts
+    (converter default) and NamedTuples structured from dicts (`namedtuple_dict_structure_factory` with the converter's
+    forbid flag, registered on the converter before the strategy is applied)."""
     rng = chk.rng
     done = 0
-    for _ in range(n * 3):
+    for _ in range(n * 4):
         if done >= n:
             break
-        g = HG.gworld(n_classes=rng.randint(2, 3), kinds=("attrs", "dc"), want="consistent", conv_level=True)
+        g = HG.gworld(n_classes=rng.randint(2, 3), kinds=rng.choice(MEMBER_KINDS), want="consistent", conv_level=True,
+                      nt_conv=True)
         g["conv"]["tovs"] = []
         g["conv"]["forbid"] = True
         R = H.HRealised(g)
@@ -404,66 +431,139 @@ def tagged_unions(chk, HG, n, drv, corr_fail):
             chk.violation("C10 oracle: configure_tagged_union failed on a forbidding converter: " + repr(e)[:200],
                           {"check": "tag", "gworld": g})
             continue
-        for i in members:
-            if any(f["name"] == tag or tag in H.accepted_keys(g["classes"][i]["kind"], H.eff_hc(g, i), g["classes"][i]["fields"])
-                   for f in g["classes"][i]["fields"]):
-                break
-        else:
-            ci = rng.choice(members)
+        if any(f["name"] == tag or tag in H.accepted_keys(g["classes"][i]["kind"], H.eff_hc(g, i), g["classes"][i]["fields"])
+               for i in members for f in g["classes"][i]["fields"]):
+            continue
+        done += 1
+        tu_sx = "(tu (members %s) (tags %s) %s %s 1)" % (
+            " ".join(str(i) for i in members),
+            " ".join("(%d %s)" % (i, terms.obj_sx(("s", R.classes[i].__name__))) for i in members),
+            terms.esc(tag), "-" if dflt is None else str(dflt))
+
+        def payload_of(ci, xv):
+            """the payload the strategy's unstructure hook produces; a TypedDict instance is a plain dict at run time (the
+            strategy cannot tell which member it is), so its payload is the member's own dict plus the member's tag"""
+            cl = R.classes[ci]
+            if g["classes"][ci]["kind"] == "td":
+                return {**conv.unstructure(xv, unstructure_as=cl), tag: cl.__name__}
+            return conv.unstructure(xv, unstructure_as=U)
+
+        for ci in (members if rng.random() < 0.5 else [rng.choice(members)]):
+            kind = g["classes"][ci]["kind"]
             x = R.val(HG.instance(g, ci))
-            done += 1
-            chk.note("tagged-union:" + ("detailed" if g["detailed"] else "fast"))
-            case = {"check": "tag", "gworld": g, "members": members, "tag": tag}
-            tu_sx = "(tu (members %s) (tags %s) %s %s 1)" % (
-                " ".join(str(i) for i in members),
-                " ".join("(%d %s)" % (i, terms.obj_sx(("s", R.classes[i].__name__))) for i in members),
-                terms.esc(tag), "-" if dflt is None else str(dflt))
+            chk.note("tagged-union:" + ("detailed" if g["detailed"] else "fast"), "tagged-union-member:" + kind)
+            case = {"check": "tag", "gworld": g, "members": members, "tag": tag, "member": ci}
             try:
-                p = conv.unstructure(x, unstructure_as=U)
+                p = payload_of(ci, x)
                 y = conv.structure(p, U)
             except Exception as e:  # noqa: BLE001
-                chk.violation("C10 oracle: tagged union on a forbidding converter rejects its own payload (tag counted as extra?): "
-                              + repr(e)[:200], case)
+                chk.violation("C10 oracle: tagged union on a forbidding converter rejects its own payload (tag counted as extra?) "
+                              "[%s member]: %s" % (kind, repr(e)[:200]), case)
                 continue
-            chk.count("tag" + repr(p), sample={"tagged_union_payload": repr(p)[:200]})
-            if not (y == x):
-                chk.violation("C10 oracle: tagged union round trip changed the value", case)
+            chk.count("tag" + repr(p), sample={"tagged_union_payload": repr(p)[:200], "member_kind": kind})
+            if not (y == x and type(y) is type(x)):
+                chk.violation("C10 oracle: tagged union round trip changed the value [%s member]" % kind, case)
+            # nested: the union below a list / a mapping
+            try:
+                ys = conv.structure([p, dict(p)], list[U])
+                yd = conv.structure({"k": p}, dict[str, U])
+                if not (ys == [x, x] and yd == {"k": x}):
+                    chk.violation("C10 oracle: tagged union below a list / dict: round trip changed the value [%s member]" % kind, case)
+            except Exception as e:  # noqa: BLE001
+                chk.violation("C10 oracle: tagged union below a list / dict on a forbidding converter rejects its own payload "
+                              "[%s member]: %s" % (kind, repr(e)[:200]), case)
             tag_corr(chk, drv, S, g, U, tu_sx, p, corr_fail, case, "own-payload")
             p2 = dict(p)
             p2["zzz"] = 5
             tag_corr(chk, drv, S, g, U, tu_sx, p2, corr_fail, case, "extra-key")
             p3 = {rng.choice(["zzz", "it's", tag + "_"]): 1, **{k: p[k] for k in reversed(list(p))}}   # tag first / keys reordered
             tag_corr(chk, drv, S, g, U, tu_sx, p3, corr_fail, case, "reordered+extra")
-            try:
-                conv.structure(p2, U)
-                chk.violation("C10 oracle: tagged union on a forbidding converter accepted an extra key", case)
-            except Exception as e:  # noqa: BLE001
-                views = []
-
-                def walk(exc):
-                    if isinstance(exc, ForbiddenExtraKeysError):
-                        views.append((exc.cl, set(exc.extra_fields)))
-                    for sub in getattr(exc, "exceptions", ()):
-                        walk(sub)
-                walk(e)
-                if views != [(R.classes[ci], {"zzz"})]:
-                    chk.violation(f"C10 oracle: tagged union + extra key: reported {views}, expected exactly {{'zzz'}}", case)
-            if dflt is not None:
-                # default member: a payload of the default member with an unknown tag value, or without the tag, is
-                # structured as the default member -- the tag key is not an extra there either
-                xd = R.val(HG.instance(g, dflt))
+            for where, q, TT in (("", p2, U), (" (below a list)", [p, p2], list[U])):
                 try:
-                    pd = conv.unstructure(xd, unstructure_as=U)
-                    for variant, q in (("unknown-tag", {**pd, tag: "no-such-member"}), ("missing-tag", {k: v for k, v in pd.items() if k != tag})):
-                        chk.note("tagged-union-default:" + variant)
-                        tag_corr(chk, drv, S, g, U, tu_sx, q, corr_fail, dict(case, default=dflt), "default:" + variant)
-                        tag_corr(chk, drv, S, g, U, tu_sx, {**q, "zzz": 5}, corr_fail, dict(case, default=dflt), "default:" + variant + "+extra")
-                        yd = conv.structure(q, U)
-                        if not (yd == xd and type(yd) is type(xd)):
-                            chk.violation(f"C10 oracle: tagged union with default, {variant}: got {yd!r}, expected {xd!r}", dict(case, default=dflt))
+                    conv.structure(q, TT)
+                    chk.violation("C10 oracle: tagged union on a forbidding converter accepted an extra key%s [%s member]" % (where, kind), case)
                 except Exception as e:  # noqa: BLE001
-                    chk.violation("C10 oracle: tagged union with a default member on a forbidding converter rejects a payload of the "
-                                  "default member with an unknown / missing tag (tag counted as extra?): " + repr(e)[:200], dict(case, default=dflt))
+                    views = []
+
+                    def walk(exc):
+                        if isinstance(exc, ForbiddenExtraKeysError):
+                            views.append((exc.cl, set(exc.extra_fields)))
+                        for sub in getattr(exc, "exceptions", ()):
+                            walk(sub)
+                    walk(e)
+                    if views != [(R.classes[ci], {"zzz"})]:
+                        chk.violation(f"C10 oracle: tagged union + extra key{where}: reported {views}, expected exactly {{'zzz'}} [{kind} member]", case)
+        if dflt is not None:
+            # default member: a payload of the default member with an unknown tag value, or without the tag, is
+            # structured as the default member -- the tag key is not an extra there either
+            kind = g["classes"][dflt]["kind"]
+            xd = R.val(HG.instance(g, dflt))
+            chk.note("tagged-union-default-member:" + kind)
+            case = {"check": "tag", "gworld": g, "members": members, "tag": tag, "default": dflt}
+            try:
+                pd = payload_of(dflt, xd)
+                for variant, q in (("unknown-tag", {**pd, tag: "no-such-member"}), ("missing-tag", {k: v for k, v in pd.items() if k != tag})):
+                    chk.note("tagged-union-default:" + variant)
+                    tag_corr(chk, drv, S, g, U, tu_sx, q, corr_fail, case, "default:" + variant)
+                    tag_corr(chk, drv, S, g, U, tu_sx, {**q, "zzz": 5}, corr_fail, case, "default:" + variant + "+extra")
+                    yd = conv.structure(q, U)
+                    if not (yd == xd and type(yd) is type(xd)):
+                        chk.violation(f"C10 oracle: tagged union with default, {variant}: got {yd!r}, expected {xd!r}", case)
+            except Exception as e:  # noqa: BLE001
+                chk.violation("C10 oracle: tagged union with a default member on a forbidding converter rejects a payload of the "
+                              "default member with an unknown / missing tag (tag counted as extra?) [%s member]: %s" % (kind, repr(e)[:200]), case)
+
+
+def tag_kinds_witness(chk):
+    """the Lean witness C10_tag_kept_for_td_witness on the implementation, on every run: a forbidding converter, a tagged
+    union with a TypedDict member and a NamedTuple-from-dict member (also as the default member): the member's own dict
+    plus the tag is accepted, a further key is reported alone."""
+    from typing import NamedTuple, TypedDict
+    from cattrs.cols import namedtuple_dict_structure_factory, namedtuple_dict_unstructure_factory
+
+    class WT(TypedDict):
+        a: int
+
+    class WN(NamedTuple):
+        b: int
+        c: str = "x"
+
+    n = 0
+    for detailed in (True, False):
+        for default in (None, WT, WN):
+            conv = Converter(forbid_extra_keys=True, detailed_validation=detailed)
+            conv.register_unstructure_hook(WN, namedtuple_dict_unstructure_factory(WN, conv))
+            conv.register_structure_hook(WN, namedtuple_dict_structure_factory(WN, conv, detailed, True))
+            U = Union[WT, WN]
+            configure_tagged_union(U, conv, **({} if default is None else {"default": default}))
+            tagless = [] if default is None else ([({"a": 1}, {"a": 1})] if default is WT else [({"b": 2}, WN(2))])
+            for payload, want in [({"a": 1, "_type": "WT"}, {"a": 1}), ({"_type": "WN", "b": 2, "c": "y"}, WN(2, "y"))] + tagless:
+                n += 1
+                chk.count("tag-kinds-witness%s%s%r" % (detailed, default, payload), nontrivial=True)
+                chk.note("tagged-union:kinds-witness")
+                case = {"check": "tag", "stream": "tag-kinds-witness", "payload": repr(payload), "detailed": detailed}
+                try:
+                    got = conv.structure(payload, U)
+                    if not (got == want and type(got) is type(want)):
+                        chk.violation(f"C10 oracle: tagged union witness: {payload!r} -> {got!r}, expected {want!r}", case)
+                except Exception as e:  # noqa: BLE001
+                    chk.violation(f"C10 oracle: tagged union with a TypedDict / NamedTuple member on a forbidding converter rejects "
+                                  f"the member's own payload {payload!r} (tag counted as extra?): {e!r}"[:400], case)
+                try:
+                    conv.structure({**payload, "zzz": 5}, U)
+                    chk.violation(f"C10 oracle: tagged union witness accepted the extra key zzz in {payload!r}", case)
+                except Exception as e:  # noqa: BLE001
+                    found = []
+
+                    def walk(exc):
+                        if isinstance(exc, ForbiddenExtraKeysError):
+                            found.append(set(exc.extra_fields))
+                        for sub in getattr(exc, "exceptions", ()):
+                            walk(sub)
+                    walk(e)
+                    if found != [{"zzz"}]:
+                        chk.violation(f"C10 oracle: tagged union witness + extra key: reported {found}, expected exactly {{'zzz'}} for {payload!r}", case)
+    chk.extra["tag_kinds_witness_cases"] = n
 
 
 def f9_witness(chk, drv):
@@ -506,7 +606,8 @@ def run(chk: framework.Check):
     quick = chk.tier == "quick"
     corr_fail = []
     f9_witness(chk, drv)
-    n_hook, n_conv, n_any, n_deep = (260, 100, 90, 120) if quick else (2600, 1000, 900, 1500)
+    tag_kinds_witness(chk)
+    n_hook, n_conv, n_any, n_deep = (225, 100, 80, 115) if quick else (2600, 1000, 900, 1500)
     for i in range(n_deep):
         g = HG.gworld(n_classes=4, want="consistent", forbid_p=0.7, chain=True, conv_level=(i % 4 == 3))
         one_world(chk, drv, HG, g, "deep", corr_fail, 2, 4, only_last=True)
@@ -517,7 +618,7 @@ def run(chk: framework.Check):
         one_world(chk, drv, HG, g, "converter", corr_fail, 2, 3)
     for _ in range(n_any):
         one_world(chk, drv, HG, HG.gworld(want="any", forbid_p=0.6), UNJUDGED, corr_fail, 2, 2)
-    tagged_unions(chk, HG, 40 if quick else 400, drv, corr_fail)
+    tagged_unions(chk, HG, 90 if quick else 900, drv, corr_fail)
     for case, a, b in corr_fail[:5]:
         chk.violation(
             "correspondence corr:C10:%s broken (theorems C10_* no longer tied to the code): impl=%s model=%s [%s %s]"
